@@ -47,6 +47,7 @@ ASSUMPTIONS = [
 EXPECTED_PROBES = [
     "merge_saw_empty_partial", "group_absent_from_first_block", "all_null_block", "empty_block", "blocks_gt_rows",
     "completion_order_not_fifo", "consumer_interleaved_with_tasks", "stall", "workers_lt_tasks", "position_out_of_range_must_raise",
+    "stmt_fault_armed", "preemptive_pools", "tasks_interleaved_inside_bodies", "retry_after_fault",
 ]
 
 KERNELS = ["size", "count", "sum", "sum_squares", "mean", "min", "max", "first", "last"]
